@@ -172,6 +172,46 @@ def relative_remote_family(run, binary, base, rng, n):
             shutil.rmtree(root, ignore_errors=True)
 
 
+def size_change_scripted(run, binary, jbin, quick):
+    """The source file has another length at copy time than at listing time (it grew or shrank in between): whatever the boss does about it
+    - stop, report, clean up - it does it on the DESTINATION; the source doer is only ever asked to report its root, list and read.  The REAL
+    boss against scripted doers whose listing announces one size and whose content has another."""
+    import scripted
+    rng = run.rng
+    T = sync_e2e.T0
+    reqs = []
+    for g in range(24 if quick else 600):
+        real_len = rng.choice([10, 5000, 9000, 20000])
+        listed = rng.choice([0, 1, 4096, real_len - 1, real_len + 1, real_len + 5000, max(0, real_len - 4097)])
+        if listed == real_len:
+            listed += 1
+        src = {'': {'k': 'dir'}, 'a': {'k': 'file', 'data': b'A', 'mtime_ns': T}, 'grow.log': {'k': 'file', 'data': bytes(rng.randrange(256) for _ in range(real_len)), 'mtime_ns': T + 1},
+               'z': {'k': 'file', 'data': b'Z', 'mtime_ns': T + 2}}
+        dest = {'': {'k': 'dir'}}
+        if rng.random() < 0.5:
+            dest['grow.log'] = {'k': 'file', 'data': b'old', 'mtime_ns': T - 5}
+        sc = sync_e2e.Scenario()
+        sc.src, sc.dest = src, dest
+        sc.cfg = {'newer': 'A', 'older': 'A', 'same': 'S', 'entry': 'A', 'root': 'A'}
+        ls = scripted.model_listing(jbin, sc.src)
+        ld = scripted.model_listing(jbin, sc.dest)
+        ls = [(p, ('F:%d:%d' % (T + 1, listed)) if p == 'grow.log' else e) for p, e in ls]
+        sched = ''.join(rng.sample(['S'] * len(ls) + ['D'] * len(ld), len(ls) + len(ld)))
+        reqs.append((sc, ls, ld, sched, listed, real_len))
+    impl = scripted.run_batch(binary, [scripted.harness_line(sc, ls, ld, sched) for sc, ls, ld, sched, _, _ in reqs], timeout=600)
+    for (sc, ls, ld, sched, listed, real_len), im in zip(reqs, impl):
+        run.count('size-change-scripted')
+        run.case(('size-change', listed, real_len, sched, 'grow.log' in sc.dest), True)
+        run.traces_validated += 1
+        other = [c for c in im['src'] if c[0] != 'Get']
+        if other:
+            run.fail('C02: a source file listed with %d bytes has %d at copy time and the SOURCE doer was sent %s' % (listed, real_len, other[:3]),
+                     {'family': 'size-change-scripted', 'listed': listed, 'real': real_len, 'sched': sched, 'src_trace': im['src'], 'dest_trace': im['dest']})
+        elif im['ok']:
+            run.fail('C02/C11: a source file listed with %d bytes has %d at copy time and sync() returned Ok' % (listed, real_len),
+                     {'family': 'size-change-scripted', 'listed': listed, 'real': real_len, 'sched': sched})
+
+
 def check(run):
     run.trusted = list(vlib.COMMON_TRUSTED) + ['the source-text scan of send_command sites (harness facts-sites) - the one syntactic input']
     run.assumptions = ['source and destination paths are not nested; no destination file is hard-linked from outside']
@@ -193,6 +233,7 @@ def check(run):
         from props.c01 import run_inside_names
         run_inside_names(run, binary, base, prop='C02')          # F14: odd names of a file source placed inside a trailing-slash destination
         relative_remote_family(run, binary, base, rng, 9 if quick else 60)
+        size_change_scripted(run, binary, jbin, quick)
         from props.c17 import unreadable_subfolder_family
         unreadable_subfolder_family(run, binary)       # a boss that plans without the whole destination listing writes through the links that are there
         from props.c12 import kept_link_scripted
